@@ -3872,3 +3872,211 @@ func rulePrintAllPaths(c *Ctx, r *Rep) {
 		r.Undecided("census", token.NoPos, "no node type with a field common to all its grammar actions")
 	}
 }
+
+// ---------------------------------------------------------------------------------------------------------------------
+
+func init() {
+	reg(&Rule{ID: "R-C03-splitsib", Props: []string{"C03", "C13"}, Floor: 2,
+		Doc: "the natives that split a jq string with strings.Split (split/1 and the string case of `/`) treat the empty subject alike: each tests the subject against \"\" and returns before the call (strings.Split(\"\", sep) is [\"\"], jq's split of an empty string is [])",
+		Run: ruleSplitSib})
+}
+
+func ruleSplitSib(c *Ctx, r *Rep) {
+	p := c.Gojq
+	info := p.TypesInfo
+	n := 0
+	for _, fd := range c.Decls(p) {
+		if fd.Body == nil {
+			continue
+		}
+		walkStack(fd.Body, func(q ast.Node, stack []ast.Node) bool {
+			call, ok := q.(*ast.CallExpr)
+			if !ok || calleeName(info, call) != "strings.Split" || len(call.Args) != 2 {
+				return true
+			}
+			subj, ok := unparen(call.Args[0]).(*ast.Ident)
+			if !ok {
+				return true
+			}
+			sobj := info.Uses[subj]
+			// only subjects that are jq values: a parameter, or a variable asserted out of one
+			n++
+			// innermost enclosing function (literal or declaration)
+			var body *ast.BlockStmt = fd.Body
+			for i := len(stack) - 1; i >= 0; i-- {
+				if fl, ok := stack[i].(*ast.FuncLit); ok {
+					body = fl.Body
+					break
+				}
+			}
+			guarded := false
+			for _, st := range body.List {
+				if st.End() > call.Pos() {
+					break
+				}
+				ifs, ok := st.(*ast.IfStmt)
+				if !ok || !endsInReturn(ifs.Body) {
+					continue
+				}
+				if be, ok := unparen(ifs.Cond).(*ast.BinaryExpr); ok && be.Op == token.EQL {
+					if id, ok := unparen(be.X).(*ast.Ident); ok && info.Uses[id] == sobj {
+						if s, ok := constString(info, be.Y); ok && s == "" {
+							guarded = true
+						}
+					}
+				}
+			}
+			where := declKey(fd)
+			if body != fd.Body {
+				where += " (function literal)"
+			}
+			r.Check(guarded, fmt.Sprintf("split:%s", where), call.Pos(), "%s splits %s with strings.Split; the empty subject returns before the call: %v (`\"\" | split(\",\")` must be [] like `\"\" / \",\"`, not [\"\"])", where, subj.Name, guarded)
+			return true
+		})
+	}
+	if n < 2 {
+		r.Undecided("census", token.NoPos, "only %d uses of strings.Split on a jq subject found (split/1 and `/` are expected)", n)
+	}
+}
+
+// ---------------------------------------------------------------------------------------------------------------------
+
+func init() {
+	reg(&Rule{ID: "R-C03-slicebounds", Props: []string{"C03", "C02"}, Floor: 6,
+		Doc: "in each of the three slice-bound computations (slice, sliceString, updateArraySlice) the start bound is converted by a helper that rounds down (math.Floor) and the end bound by one that rounds up (math.Ceil): a fractional bound covers every element it touches, also when it is negative (truncation toward zero rounds a negative start up)",
+		Run: ruleSliceBounds})
+}
+
+func ruleSliceBounds(c *Ctx, r *Rep) {
+	p := c.Gojq
+	info := p.TypesInfo
+	callsMath := func(fd *ast.FuncDecl, name string) bool {
+		found := false
+		if fd == nil {
+			return false
+		}
+		ast.Inspect(fd.Body, func(q ast.Node) bool {
+			if call, ok := q.(*ast.CallExpr); ok && calleeName(info, call) == "math."+name {
+				found = true
+			}
+			return true
+		})
+		return found
+	}
+	n := 0
+	for _, fn := range []string{"slice", "sliceString", "updateArraySlice"} {
+		fd := c.Decl(p, fn)
+		if fd == nil {
+			r.Undecided("anchor:"+fn, token.NoPos, "%s not found", fn)
+			continue
+		}
+		// conversions `i, ok := conv(X)` whose result feeds `start = …` / `end = …`
+		ast.Inspect(fd.Body, func(q ast.Node) bool {
+			ifs, ok := q.(*ast.IfStmt)
+			if !ok || ifs.Init == nil {
+				return true
+			}
+			as, ok := ifs.Init.(*ast.AssignStmt)
+			if !ok || len(as.Rhs) != 1 {
+				return true
+			}
+			call, ok := unparen(as.Rhs[0]).(*ast.CallExpr)
+			if !ok {
+				return true
+			}
+			f, ok := callee(info, call).(*types.Func)
+			if !ok || f.Pkg() == nil || f.Pkg().Path() != pathGojq || !strings.HasPrefix(f.Name(), "toInt") {
+				return true
+			}
+			which := ""
+			ast.Inspect(ifs.Body, func(w ast.Node) bool {
+				if a2, ok := w.(*ast.AssignStmt); ok && len(a2.Lhs) == 1 {
+					if id, ok := a2.Lhs[0].(*ast.Ident); ok && (id.Name == "start" || id.Name == "end") && which == "" {
+						which = id.Name
+					}
+				}
+				return true
+			})
+			if which == "" {
+				return true
+			}
+			n++
+			want := map[string]string{"start": "Floor", "end": "Ceil"}[which]
+			good := callsMath(c.Decl(p, f.Name()), want)
+			if which == "end" && good {
+				// math.Ceil maps (-1, 0) to -0, which as an int is 0, the beginning: the helper must look at the sign first
+				signTest := false
+				if hd := c.Decl(p, f.Name()); hd != nil {
+					ast.Inspect(hd.Body, func(w ast.Node) bool {
+						if be, ok := w.(*ast.BinaryExpr); ok && (be.Op == token.LSS || be.Op == token.GTR || be.Op == token.LEQ || be.Op == token.GEQ) {
+							for _, side := range []ast.Expr{be.X, be.Y} {
+								if tv, ok := info.Types[side]; ok && tv.Value != nil && constant.Sign(tv.Value) == 0 {
+									signTest = true
+								}
+							}
+						}
+						return true
+					})
+				}
+				r.Check(signTest, fmt.Sprintf("bound:%s:end:sign", fn), call.Pos(), "%s rounds the end bound up with %s; the helper tests the sign before math.Ceil: %v (an end in (-1, 0) counts from the end and rounds up to the end: `[1,2,3] | .[:-0.5]` is [1,2,3]; Ceil alone yields -0, i.e. the beginning)", fn, f.Name(), signTest)
+			}
+			r.Check(good, fmt.Sprintf("bound:%s:%s", fn, which), call.Pos(), "%s converts its %s bound with %s, which applies math.%s: %v (`[1,2,3] | .[-1.5:]` is [2,3] in jq: the length is added first and the result rounded down; truncating -1.5 toward zero first gives [3])", fn, which, f.Name(), want, good)
+			return true
+		})
+	}
+	if n < 6 {
+		r.Undecided("census", token.NoPos, "only %d slice-bound conversions found in slice, sliceString and updateArraySlice (6 expected)", n)
+	}
+}
+
+// ---------------------------------------------------------------------------------------------------------------------
+
+func init() {
+	reg(&Rule{ID: "R-C13-epochsplit", Props: []string{"C13", "C03"}, Floor: 1,
+		Doc: "where a float epoch is split into seconds and nanoseconds for time.Unix, both parts use the same rounding of the same value: a fraction taken with math.Floor beside seconds taken by conversion (truncation toward zero) is off by one second for every negative non-integral epoch",
+		Run: ruleEpochSplit})
+}
+
+func ruleEpochSplit(c *Ctx, r *Rep) {
+	p := c.Gojq
+	info := p.TypesInfo
+	n := 0
+	for _, fd := range c.Decls(p) {
+		if fd.Body == nil {
+			continue
+		}
+		ast.Inspect(fd.Body, func(q ast.Node) bool {
+			call, ok := q.(*ast.CallExpr)
+			if !ok || calleeName(info, call) != "time.Unix" || len(call.Args) != 2 {
+				return true
+			}
+			floorArgs := func(e ast.Expr) map[string]bool {
+				out := map[string]bool{}
+				ast.Inspect(e, func(w ast.Node) bool {
+					if c2, ok := w.(*ast.CallExpr); ok && calleeName(info, c2) == "math.Floor" && len(c2.Args) == 1 {
+						out[c.Src(c2.Args[0])] = true
+					}
+					return true
+				})
+				return out
+			}
+			nsFloors := floorArgs(call.Args[1])
+			if len(nsFloors) == 0 {
+				return true // the nanoseconds are not derived with Floor: not this idiom
+			}
+			n++
+			secFloors := floorArgs(call.Args[0])
+			good := true
+			for v := range nsFloors {
+				if !secFloors[v] {
+					good = false
+				}
+			}
+			r.Check(good, "split:"+declKey(fd), call.Pos(), "%s builds a time with `%s`: the nanoseconds are the fraction above math.Floor; the seconds are that floor as well: %v (`-1.5 | gmtime | mktime` gives -0.5: int64(-1.5) is -1, one second above the floor)", declKey(fd), c.Src(call), good)
+			return true
+		})
+	}
+	if n == 0 {
+		r.Undecided("census", token.NoPos, "no time.Unix call that derives its nanoseconds with math.Floor found (epochToArray is expected)")
+	}
+}
